@@ -328,6 +328,28 @@ class Replay(object):
                       rec, strings=strings)
 
     # ------------------------------------------------------------ updating elements
+    @staticmethod
+    def outcome_matches(e, obs, pyctx):
+        """is the observed outcome (+ context afterwards) the allowed outcome e ?"""
+        if e["ok"] != obs["ok"]:
+            return False
+        if not e["ok"]:
+            return e["exc"] == obs["exc"] and pyctx == e["post"]
+        return pyctx == e["post"]
+
+    def modes_explaining(self, recs, val, obs, pyctx, j=None):
+        """DeleteContext with an empty key: the policies (mode of the specification) under which the
+        element does what was observed (j: number of the value in a flow)"""
+        modes = set()
+        for r in recs:
+            x = r if j is None else r["results"][j]
+            e = {"ok": x["out"]["ok"], "post": cl.decode_s(x["post"], val, {})}
+            if not e["ok"]:
+                e["exc"] = x["out"]["exc"]
+            if self.outcome_matches(e, obs, pyctx):
+                modes.add(r["mode"])
+        return modes
+
     def judge(self, name, group, val, special, obs, pyctx, snap, data=None, data_out=None, **kw):
         """compare an observed outcome (+ context afterwards) with the allowed ones"""
         rec = group[0]
@@ -335,14 +357,8 @@ class Replay(object):
         if cl.has_cycle(pyctx):
             self.fail("%s:context-contains-itself" % name, rec, context=snap, **kw)
             return False
-        for e in exps:
-            if e["ok"] != obs["ok"]:
-                continue
-            if not e["ok"]:
-                if e["exc"] == obs["exc"] and pyctx == e["post"]:
-                    return True
-            elif pyctx == e["post"]:
-                return True
+        if any(self.outcome_matches(e, obs, pyctx) for e in exps):
+            return True
         e = exps[0]
         if not obs["ok"] and (e["ok"] or obs["exc"] != e.get("exc")):
             key = "%s:raised:%s" % (name, obs["exc"])
@@ -439,15 +455,25 @@ class Replay(object):
     def rp_delete(self, group, val):
         rec = group[0]
         path = rec["call"]["path"]
-        forms = [("list", list(path)), ("tuple", tuple(path))]
-        if cl.dotted_ok(path):
-            forms.append(("string", ".".join(path)))
+        # the specification says in which notations the path can be written; its records differ in the
+        # notation only where the documentation leaves the behaviour open (an empty key)
+        by_nt = {}
+        for r in group:
+            by_nt.setdefault(r["nt"], []).append(r)
+        forms = [("list", list(path)), ("tuple", tuple(path)), ("str", ".".join(path))]
+        if ("str" in by_nt) != cl.dotted_ok(path):
+            raise core.MachineryError("delete: harness and spec disagree on the string notation of %r" % (path,))
+        possible, all_ok, seen = None, True, []
         for name, key in forms:
+            if name not in by_nt:
+                continue
+            sub = by_nt[name]
             pyctx = cl.decode_s(rec["ctx"], val, {}, self.rnd)
             snap = copy.deepcopy(pyctx)
             data = self.rnd.choice([["data"], ["data"], 0, None, "", (), False])     # data of every truth value
             data_snap = copy.deepcopy(data)
-            bare = not pyctx and not isinstance(data, tuple) and self.rnd.random() < 0.5   # a value without context
+            # a value without context (for an empty key only in one notation: the others are compared)
+            bare = not pyctx and not isinstance(data, tuple) and self.rnd.random() < 0.5 and (path or name == "tuple")
             value = data if bare else (data, pyctx)
             made = observe(lambda: self.fns.DeleteContext(key))
             obs = made if not made["ok"] else observe(lambda: made["r"](value))
@@ -461,11 +487,21 @@ class Replay(object):
                 r = obs["r"]
                 if not (isinstance(r, tuple) and len(r) == 2 and r[0] is data and data == data_snap):
                     self.fail("DeleteContext:data-touched", rec, context=snap, observed=repr(r)[:80])
+                    all_ok = False
                     continue
                 if r[1] is not pyctx:
                     pyctx = r[1]
             tag = "DeleteContext" if path else "DeleteContext(empty key)"
-            self.judge(tag, group, val, {}, obs, pyctx, snap, key_arg=repr(key))
+            if not self.judge(tag, sub, val, {}, obs, pyctx, snap, key_arg=repr(key)):
+                all_ok = False
+            elif not path:
+                modes = self.modes_explaining(sub, val, obs, pyctx)
+                possible = modes if possible is None else possible & modes
+                seen.append((repr(key), sorted(modes)))
+        # the notations address the same item: one policy of the element explains what it did in all of them
+        if not path and all_ok and possible is not None and not possible:
+            self.fail("DeleteContext(empty key):notations-disagree", rec, context=cl.decode_s(rec["ctx"], val, {}),
+                      behaviour_by_notation=seen)
 
     def rp_fuw(self, group, val):
         rec = group[0]
@@ -610,17 +646,28 @@ class Replay(object):
                         disturb(after)
             self.args_changed("UpdateContext", rec, (update, kwargs), snap_args, "update / default")
         elif op == "delete":
-            forms = [("list", list(path)), ("tuple", tuple(path))]
-            if cl.dotted_ok(path):
-                forms.append(("string", ".".join(path)))
+            by_nt = {}
+            for r in group:
+                by_nt.setdefault(r["nt"], []).append(r)
+            forms = [("list", list(path)), ("tuple", tuple(path)), ("str", ".".join(path))]
+            if ("str" in by_nt) != cl.dotted_ok(path):
+                raise core.MachineryError("delete: harness and spec disagree on the string notation of %r" % (path,))
+            possible, all_ok = {}, True        # value number -> policies explaining every notation
             for fname, key in forms:
+                if fname not in by_nt:
+                    continue
+                sub = by_nt[fname]
                 snap_key = copy.deepcopy(key)
                 made = [observe(lambda: self.fns.DeleteContext(key)) for _ in range(2)]
                 if not (made[0]["ok"] and made[1]["ok"]):
                     pyctx = cl.decode_s(flow[0], val, {})
                     bad = made[0] if not made[0]["ok"] else made[1]
-                    self.judge("DeleteContext" if path else "DeleteContext(empty key)", group, val, {}, bad, pyctx,
-                               copy.deepcopy(pyctx), exps=self.flow_expected(group, 0, val, {}))
+                    if not self.judge("DeleteContext" if path else "DeleteContext(empty key)", sub, val, {}, bad, pyctx,
+                                      copy.deepcopy(pyctx), exps=self.flow_expected(sub, 0, val, {})):
+                        all_ok = False
+                    elif not path:
+                        modes = self.modes_explaining(sub, val, bad, pyctx, 0)
+                        possible[0] = possible.get(0, modes) & modes
                     continue
                 stop = False
                 for j in range(len(flow)):
@@ -637,13 +684,23 @@ class Replay(object):
                         name = "DeleteContext(reused)" if which == 0 else "DeleteContext(second element, same arguments)"
                         if not path:
                             name = "DeleteContext(empty key)"
-                        if not self.judge(name, group, val, {}, obs, after, snap, value_number=j, flow=flow,
-                                          key_arg=repr(key), exps=self.flow_expected(group, j, val, {})):
+                        if not self.judge(name, sub, val, {}, obs, after, snap, value_number=j, flow=flow,
+                                          key_arg=repr(key), exps=self.flow_expected(sub, j, val, {})):
                             stop = True
+                            all_ok = False
                             break
+                        if not path:
+                            modes = self.modes_explaining(sub, val, obs, after, j)
+                            possible[j] = possible.get(j, modes) & modes
                     if stop:
                         break
                 self.args_changed("DeleteContext", rec, key, snap_key, "key (%s)" % fname)
+            if not path and all_ok:
+                for j in sorted(possible):
+                    if not possible[j]:
+                        self.fail("DeleteContext(empty key):notations-disagree", rec,
+                                  context=cl.decode_s(flow[j], val, {}), value_number=j, flow=flow)
+                        break
         elif op == "fuw":
             key = ".".join(path)
             if c["uk"] == "simple":
@@ -1009,7 +1066,8 @@ def run(ctx):
     ctx.assume("dotted strings with empty components are not compared for get_recursively and contains "
                "(documented as undefined); contains('') likewise")
     ctx.assume("DeleteContext with an empty key: any of unchanged / emptied context / LenaValueError / "
-               "LenaTypeError is accepted (not documented)")
+               "LenaTypeError is accepted (not documented), but it must be the same in every notation of the "
+               "empty key ('', [], ()) - the notations address the same item")
     ctx.assume("rendered strings: the specification supplies the sequence of literals and values, the harness "
                "concatenates str(value) (jinja2) / format(value) (format_context)")
     rnd = random.Random(ctx.seed)
